@@ -336,6 +336,137 @@ def nac_equal(a, b, kf=6):
     return bad
 
 
+DUMPER_DEFAULTS = {}
+
+
+def class_defaults():
+    """the class-level default dumper settings of every PhonopyYaml dumper class"""
+    from phonopy.interface import phonopy_yaml as PY
+
+    out = {}
+    for name in dir(PY):
+        obj = getattr(PY, name)
+        if isinstance(obj, type):
+            for attr in ("_default_dumper_settings", "default_settings", "_default_settings"):
+                d = obj.__dict__.get(attr)
+                if isinstance(d, dict):
+                    out["%s.%s" % (name, attr)] = dict(d)
+    return out
+
+
+def roundtrip(run, lines, meta, ph, v, case):
+    """one Phonopy.save -> phonopy.load round trip of `ph` with settings v["settings"], compared with `ph` itself"""
+    import phonopy
+    from phonopy.interface.phonopy_yaml import PhonopyYaml
+
+    if not DUMPER_DEFAULTS:
+        DUMPER_DEFAULTS.update(class_defaults())
+    st = v["settings"]
+    with TmpDir():
+        fn = ph.save("phonopy_params.yaml", settings=dict(st), compression=v["compression"])
+        if (v["compression"] is not False) != fn.endswith(".xz"):
+            run.violation("Phonopy.save", "compression-name", "returned file name %s for compression=%r" % (fn, v["compression"]), case)
+        # ---- what was written (content flags) vs the model of save
+        y = PhonopyYaml()
+        y.read(fn)
+        ydata = (int(y.nac_params is not None), int(y.nac_params is not None and "factor" in y.nac_params), ds_flag(y.dataset),
+                 int(y.force_constants is not None), CALC[y.calculator])
+        obj_tok = "%s %d %d %d %s" % (ds_flag(ph.dataset), int(ph.force_constants is not None), int(ph.nac_params is not None),
+                                      int(ph.nac_params is not None and "factor" in ph.nac_params), CALC[ph.calculator])
+        lines.append("save %s %s" % (settings_tokens(st), obj_tok))
+        meta.append(("save", case, "%d %d %s %d %s" % ydata))
+        # ---- load it back in the (otherwise empty) directory
+        is_compact = ph.force_constants is not None and ph.force_constants.shape[0] != ph.force_constants.shape[1]
+        type2_forces = ph.dataset is not None and "displacements" in ph.dataset and "forces" in ph.dataset and int(st.get("force_sets", True))
+        written_fc = bool(ydata[3])
+        kw = dict(is_compact_fc=is_compact, log_level=0)
+        if type2_forces and not written_fc:
+            kw["produce_fc"] = False   # symfc / alm are not available: type-2 forces cannot be turned into force constants here
+        ph2 = phonopy.load(fn, **kw)
+        l_obj = "%s %d %d %d %s" % (ds_flag(ph2.dataset), int(ph2.force_constants is not None), int(ph2.nac_params is not None),
+                                    int(ph2.nac_params is not None and "factor" in ph2.nac_params), CALC[ph2.calculator])
+        if "produce_fc" not in kw:
+            lines.append("reload %s %s" % (settings_tokens(st), obj_tok))
+            meta.append(("reload", case, l_obj))
+        run.count("save/load round trips", section="oracle")
+
+        # ---- the property: what comes back equals what was written, to the printed precision
+        ok = cells_equal(run, ph.unitcell, ph2.unitcell, "unit cell", case)
+        ok &= cells_equal(run, ph.supercell, ph2.supercell, "supercell", case)
+        ok &= cells_equal(run, ph.primitive, ph2.primitive, "primitive cell", case)
+        if not np.array_equal(ph.supercell_matrix, ph2.supercell_matrix):
+            run.violation("Phonopy.save/load", "matrix-not-reproduced", "supercell matrix", case)
+        if not within_decimals(ph.primitive_matrix, ph2.primitive_matrix, 15):
+            run.violation("Phonopy.save/load", "matrix-not-reproduced", "primitive matrix", case)
+        if ph2.calculator != ph.calculator:
+            run.violation("Phonopy.save/load", "calculator-not-reproduced", "%r vs %r" % (ph.calculator, ph2.calculator), case)
+        if abs(ph2.unit_conversion_factor - ph.unit_conversion_factor) > 1e-12 * abs(ph.unit_conversion_factor):
+            run.violation("Phonopy.save/load", "factor-not-default", "frequency factor %r vs %r" % (ph.unit_conversion_factor, ph2.unit_conversion_factor), case)
+        # dataset (as far as the settings wrote it)
+        exp_ds = ph.dataset
+        if exp_ds is not None and not (st.get("force_sets", True) or st.get("displacements", True)):
+            exp_ds = None
+        elif exp_ds is not None and not st.get("force_sets", True):
+            exp_ds = _copy.deepcopy(exp_ds)
+            if "first_atoms" in exp_ds:
+                for d in exp_ds["first_atoms"]:
+                    d.pop("forces", None)
+            else:
+                exp_ds.pop("forces", None)
+        for t in dataset_equal(exp_ds, ph2.dataset):
+            run.violation("Phonopy.save/load", "dataset-not-reproduced", t, case)
+        # NAC
+        exp_nac = ph.nac_params if (st.get("born_effective_charge", True) and st.get("dielectric_constant", True)) else None
+        for t in nac_equal(exp_nac, ph2.nac_params):
+            run.violation("Phonopy.save/load", "nac-not-reproduced", t, case)
+        if exp_nac is not None and ph2.nac_params is not None:
+            f1 = exp_nac.get("factor", None)
+            f2 = ph2.nac_params.get("factor", None)
+            from phonopy.interface.calculator import get_default_physical_units
+
+            if f1 is None:
+                f1 = get_default_physical_units(ph.calculator)["nac_factor"]
+            if f2 is None or not within_decimals(f1, f2, 6):
+                run.violation("Phonopy.save/load", "nac-factor-not-reproduced", "unit_conversion_factor %r vs %r" % (f1, f2), case)
+        # force constants: an object that has them must have them again after the round trip, unless the
+        # settings exclude them explicitly (and the forces they could be re-derived from)
+        forces_excluded = ds_flag(ph.dataset) == "forces" and not st.get("force_sets", True)
+        if (ph.force_constants is not None and ph2.force_constants is None and st.get("force_constants") is not False
+                and not forces_excluded and "produce_fc" not in kw):
+            run.violation("Phonopy.save/load", "fc-lost",
+                          "the saved object has force constants, the reloaded one has none (dataset: %s, settings %r, force constants %s the file)"
+                          % (ds_flag(ph.dataset), st, "in" if written_fc else "not in"), case)
+        if written_fc:
+            if ph2.force_constants is None or not within_decimals(ph.force_constants, ph2.force_constants, 15):
+                run.violation("Phonopy.save/load", "fc-not-reproduced",
+                              "force constants differ by %.3g" % (float("inf") if ph2.force_constants is None else maxdiff(ph.force_constants, ph2.force_constants)), case)
+        # phonons
+        if ph.force_constants is not None and ph2.force_constants is not None and (written_fc or v["fc"] == "produced"):
+            same_nac = (ph.nac_params is None) == (ph2.nac_params is None)
+            if same_nac:
+                ph.run_qpoints(QS)
+                ph2.run_qpoints(QS)
+                f1, f2 = ph.qpoints.frequencies, ph2.qpoints.frequencies
+                tol = 2e-6 * max(1.0, np.abs(f1).max()) + 1e-4 * (v["scale"] < 1e-3)
+                nacf_ok = True
+                if ph.nac_params is not None:
+                    # the NAC factor is written with %f: 6 decimals
+                    fa = ph.nac_params.get("factor", 1.0) or 1.0
+                    nacf_ok = abs(fa) > 1e-2
+                if nacf_ok and maxdiff(f1, f2) > tol:
+                    run.violation("Phonopy.save/load", "phonons-not-reproduced",
+                                  "frequencies differ by %.3g THz" % maxdiff(f1, f2), case)
+                run.count("phonons compared after reload", section="oracle")
+    # ---- a dump must not change the class-level defaults of the dumpers
+    now = class_defaults()
+    if now != DUMPER_DEFAULTS:
+        changed = {k: (DUMPER_DEFAULTS.get(k), now.get(k)) for k in set(now) | set(DUMPER_DEFAULTS) if now.get(k) != DUMPER_DEFAULTS.get(k)}
+        run.violation("Phonopy.save", "class-defaults-mutated",
+                      "saving with settings %r changed class-level default dumper settings: %r" % (v["settings"], changed), case)
+        DUMPER_DEFAULTS.clear()
+        DUMPER_DEFAULTS.update(now)   # report once; later dumps are judged by their own reloads
+
+
 # --------------------------------------------------------------------------
 # part B: Phonopy.save -> phonopy.load
 # --------------------------------------------------------------------------
@@ -399,102 +530,7 @@ def part_saveload(run, rng, rs, lines, meta):
         case = dict(v)
         t0 = time.time()
         ph = make_object(rng, rs, v)
-        st = v["settings"]
-        with TmpDir():
-            fn = ph.save("phonopy_params.yaml", settings=dict(st), compression=v["compression"])
-            if (v["compression"] is not False) != fn.endswith(".xz"):
-                run.violation("Phonopy.save", "compression-name", "returned file name %s for compression=%r" % (fn, v["compression"]), case)
-            # ---- what was written (content flags) vs the model of save
-            y = PhonopyYaml()
-            y.read(fn)
-            ydata = (int(y.nac_params is not None), int(y.nac_params is not None and "factor" in y.nac_params), ds_flag(y.dataset),
-                     int(y.force_constants is not None), CALC[y.calculator])
-            obj_tok = "%s %d %d %d %s" % (ds_flag(ph.dataset), int(ph.force_constants is not None), int(ph.nac_params is not None),
-                                          int(ph.nac_params is not None and "factor" in ph.nac_params), CALC[ph.calculator])
-            lines.append("save %s %s" % (settings_tokens(st), obj_tok))
-            meta.append(("save", case, "%d %d %s %d %s" % ydata))
-            # ---- load it back in the (otherwise empty) directory
-            is_compact = ph.force_constants is not None and ph.force_constants.shape[0] != ph.force_constants.shape[1]
-            type2_forces = ph.dataset is not None and "displacements" in ph.dataset and "forces" in ph.dataset and int(st.get("force_sets", True))
-            written_fc = bool(ydata[3])
-            kw = dict(is_compact_fc=is_compact, log_level=0)
-            if type2_forces and not written_fc:
-                kw["produce_fc"] = False   # symfc / alm are not available: type-2 forces cannot be turned into force constants here
-            ph2 = phonopy.load(fn, **kw)
-            l_obj = "%s %d %d %d %s" % (ds_flag(ph2.dataset), int(ph2.force_constants is not None), int(ph2.nac_params is not None),
-                                        int(ph2.nac_params is not None and "factor" in ph2.nac_params), CALC[ph2.calculator])
-            if "produce_fc" not in kw:
-                lines.append("reload %s %s" % (settings_tokens(st), obj_tok))
-                meta.append(("reload", case, l_obj))
-            run.count("save/load round trips", section="oracle")
-
-            # ---- the property: what comes back equals what was written, to the printed precision
-            ok = cells_equal(run, ph.unitcell, ph2.unitcell, "unit cell", case)
-            ok &= cells_equal(run, ph.supercell, ph2.supercell, "supercell", case)
-            ok &= cells_equal(run, ph.primitive, ph2.primitive, "primitive cell", case)
-            if not np.array_equal(ph.supercell_matrix, ph2.supercell_matrix):
-                run.violation("Phonopy.save/load", "matrix-not-reproduced", "supercell matrix", case)
-            if not within_decimals(ph.primitive_matrix, ph2.primitive_matrix, 15):
-                run.violation("Phonopy.save/load", "matrix-not-reproduced", "primitive matrix", case)
-            if ph2.calculator != ph.calculator:
-                run.violation("Phonopy.save/load", "calculator-not-reproduced", "%r vs %r" % (ph.calculator, ph2.calculator), case)
-            if abs(ph2.unit_conversion_factor - ph.unit_conversion_factor) > 1e-12 * abs(ph.unit_conversion_factor):
-                run.violation("Phonopy.save/load", "factor-not-default", "frequency factor %r vs %r" % (ph.unit_conversion_factor, ph2.unit_conversion_factor), case)
-            # dataset (as far as the settings wrote it)
-            exp_ds = ph.dataset
-            if exp_ds is not None and not (st.get("force_sets", True) or st.get("displacements", True)):
-                exp_ds = None
-            elif exp_ds is not None and not st.get("force_sets", True):
-                exp_ds = _copy.deepcopy(exp_ds)
-                if "first_atoms" in exp_ds:
-                    for d in exp_ds["first_atoms"]:
-                        d.pop("forces", None)
-                else:
-                    exp_ds.pop("forces", None)
-            for t in dataset_equal(exp_ds, ph2.dataset):
-                run.violation("Phonopy.save/load", "dataset-not-reproduced", t, case)
-            # NAC
-            exp_nac = ph.nac_params if (st.get("born_effective_charge", True) and st.get("dielectric_constant", True)) else None
-            for t in nac_equal(exp_nac, ph2.nac_params):
-                run.violation("Phonopy.save/load", "nac-not-reproduced", t, case)
-            if exp_nac is not None and ph2.nac_params is not None:
-                f1 = exp_nac.get("factor", None)
-                f2 = ph2.nac_params.get("factor", None)
-                from phonopy.interface.calculator import get_default_physical_units
-
-                if f1 is None:
-                    f1 = get_default_physical_units(ph.calculator)["nac_factor"]
-                if f2 is None or not within_decimals(f1, f2, 6):
-                    run.violation("Phonopy.save/load", "nac-factor-not-reproduced", "unit_conversion_factor %r vs %r" % (f1, f2), case)
-            # force constants: an object that has them must have them again after the round trip, unless the
-            # settings exclude them explicitly (and the forces they could be re-derived from)
-            forces_excluded = ds_flag(ph.dataset) == "forces" and not st.get("force_sets", True)
-            if (ph.force_constants is not None and ph2.force_constants is None and st.get("force_constants") is not False
-                    and not forces_excluded and "produce_fc" not in kw):
-                run.violation("Phonopy.save/load", "fc-lost",
-                              "the saved object has force constants, the reloaded one has none (dataset: %s, settings %r, force constants %s the file)"
-                              % (ds_flag(ph.dataset), st, "in" if written_fc else "not in"), case)
-            if written_fc:
-                if ph2.force_constants is None or not within_decimals(ph.force_constants, ph2.force_constants, 15):
-                    run.violation("Phonopy.save/load", "fc-not-reproduced",
-                                  "force constants differ by %.3g" % (float("inf") if ph2.force_constants is None else maxdiff(ph.force_constants, ph2.force_constants)), case)
-            # phonons
-            if ph.force_constants is not None and ph2.force_constants is not None and (written_fc or v["fc"] == "produced"):
-                same_nac = (ph.nac_params is None) == (ph2.nac_params is None)
-                if same_nac:
-                    ph.run_qpoints(QS)
-                    ph2.run_qpoints(QS)
-                    f1, f2 = ph.qpoints.frequencies, ph2.qpoints.frequencies
-                    tol = 2e-6 * max(1.0, np.abs(f1).max()) + 1e-4 * (v["scale"] < 1e-3)
-                    nacf_ok = True
-                    if ph.nac_params is not None:
-                        # the NAC factor is written with %f: 6 decimals
-                        fa = ph.nac_params.get("factor", 1.0) or 1.0
-                        nacf_ok = abs(fa) > 1e-2
-                    if nacf_ok and maxdiff(f1, f2) > tol:
-                        run.violation("Phonopy.save/load", "phonons-not-reproduced",
-                                      "frequencies differ by %.3g THz" % maxdiff(f1, f2), case)
-                    run.count("phonons compared after reload", section="oracle")
+        roundtrip(run, lines, meta, ph, v, case)
         run.case(("saveload", repr(sorted((k, str(x)) for k, x in v.items()))), nontrivial=v["dataset"] is not None or v["fc"] is not None)
         run.count("saveload dataset=%s" % v["dataset"])
         run.count("saveload fc=%s" % v["fc"])
